@@ -38,6 +38,11 @@ impl ToPrimitive for u128 {
 pub assume_specification<T, U, F: FnOnce(T) -> U> [Option::<T>::map_or] (o: Option<T>, default: U, f: F) -> (r: U)
     requires o is Some ==> f.requires((o->Some_0,))
     ensures o is None ==> r == default, o is Some ==> f.ensures((o->Some_0,), r);
+/// Option::filter (std documentation): Some(v) stays only if the predicate returns true on &v
+pub assume_specification<T, F: FnOnce(&T) -> bool> [Option::<T>::filter] (o: Option<T>, f: F) -> (r: Option<T>)
+    requires o is Some ==> f.requires((&o->Some_0,))
+    ensures o is None ==> r is None,
+        o is Some ==> (r is None || r == o) && (r is Some ==> f.ensures((&o->Some_0,), true)) && (r is None ==> f.ensures((&o->Some_0,), false));
 /// R14 target: the value of a `format!(..)` (an arbitrary string: error texts and labels carry no contract)
 #[verifier::external_body] pub fn verif_format() -> (r: String) { unimplemented!() }
 /// `slice.to_vec()`: element-wise clone; ASSUMED to return equal elements (every element type used here derives Clone or is String)
@@ -144,10 +149,19 @@ impl<V> HashMap<u64, V> {
     #[verifier::external_body]
     pub fn clear(&mut self) { unimplemented!() }
 }
+/// slice::reverse (std documentation): the elements in reverse order
+pub assume_specification<T> [<[T]>::reverse] (s: &mut [T])
+    ensures final(s)@ == old(s)@.reverse();
+/// Result::and_then (std documentation): the closure is called on the Ok value, an Err is passed through
+pub assume_specification<T, E, U, F: FnOnce(T) -> Result<U, E>> [Result::<T, E>::and_then] (res: Result<T, E>, f: F) -> (out: Result<U, E>)
+    requires res is Ok ==> f.requires((res->Ok_0,)),
+    ensures match res { Ok(v) => f.ensures((v,), out), Err(e) => out == Err::<U, E>(e) };
 /// Vec::retain keeps, in order, exactly the elements the predicate accepts (std documentation)
 pub assume_specification<T, A: core::alloc::Allocator, F: FnMut(&T) -> bool> [Vec::<T, A>::retain] (v: &mut Vec<T, A>, f: F)
     requires forall|x: T| old(v)@.contains(x) ==> f.requires((&x,))
-    ensures final(v)@ == old(v)@.filter(|x: T| f.ensures((&x,), true));
+    ensures final(v)@ == old(v)@.filter(|x: T| f.ensures((&x,), true)),
+        // the predicate is called on every element and an element is dropped only when that call returned false
+        forall|x: T| old(v)@.contains(x) && !f.ensures((&x,), false) ==> #[trigger] final(v)@.contains(x);
 /// proved: members of a filtered sequence satisfy the predicate and come from the original
 pub broadcast proof fn lemma_filter_members<T>(l: Seq<T>, p: spec_fn(T) -> bool)
     ensures #![trigger l.filter(p)] l.filter(p).len() <= l.len(),
